@@ -182,15 +182,26 @@ where
         let mut connector: Option<Connector<T, P, B>> = Some(connector);
         let token = self.keys.lock().insert(key);
 
-        if let Some(connection) = inner.pop(token) {
+        if let Some(mut connection) = inner.pop(token) {
             trace!("connection found in pool");
             connector = None;
+
+            // A multiplexed connection stays in the pool while this checkout is pending, so that
+            // other checkouts keep sharing it instead of dialing (or losing it if this one is dropped).
+            let mut shared = false;
+            if let Some(reused) = connection.reuse() {
+                inner.idle.entry(token).or_default().push(connection);
+                connection = reused;
+                shared = true;
+            }
+
             return Checkout::new(
                 token,
                 self.as_ref(),
                 rx,
                 connector,
                 Some(connection),
+                shared,
                 &inner.config,
             );
         }
@@ -201,7 +212,7 @@ where
         if inner.connecting.contains(&token) {
             trace!("connection in progress elsewhere, will wait");
             connector = None;
-            Checkout::new(token, self.as_ref(), rx, connector, None, &inner.config)
+            Checkout::new(token, self.as_ref(), rx, connector, None, false, &inner.config)
         } else {
             if multiplex {
                 // Only block new connection attempts if we can multiplex on this one.
@@ -209,7 +220,7 @@ where
                 inner.connecting.insert(token);
             }
             trace!("connecting to host");
-            Checkout::new(token, self.as_ref(), rx, connector, None, &inner.config)
+            Checkout::new(token, self.as_ref(), rx, connector, None, false, &inner.config)
         }
     }
 }
